@@ -323,7 +323,7 @@ def minmax_cases(chk, drv):
     from pygyro.model.layout import getLayoutHandler
     from pygyro.model.grid import Grid
     rng = chk.rng
-    for it in range(chk.n(36, 240)):
+    for it in range(chk.n(60, 300)):
         nd = rng.choice([3, 4, 4])
         P = rng.choice(proc_grids(chk.n(6, 8)))
         npts = npts_for(rng, P)[:nd]
@@ -332,7 +332,8 @@ def minmax_cases(chk, drv):
         name = rng.choice(sorted(lays))
         ord_ = lays[name]
         cplx = nd == 3 and rng.random() < 0.5
-        G = rand_field(rng, npts, cplx)
+        # shifted away from zero in both directions: a wrong neutral element (0 instead of +-inf) must show
+        G = rand_field(rng, npts, cplx) + rng.choice([-40.0, 0.0, 40.0])
         kind = rng.choice(['whole', 'one', 'one', 'two'])
         if kind == 'whole':
             sel = []
@@ -386,13 +387,13 @@ def minmax_cases(chk, drv):
         if 'error' in mo:
             raise RuntimeError('Lean driver: ' + mo['error'])
         rt = [o for o in vals if o['rank'] == root][0]
-        if Fraction(mo['rmin']) != Fraction(rt['min']) or Fraction(mo['rmax']) != Fraction(rt['max']):
+        if fr(mo['rmin']) != fr(rt['min']) or fr(mo['rmax']) != fr(rt['max']):
             chk.diff('getMin/getMax reduced value', case, [mo['rmin'], mo['rmax']], [rt['min'], rt['max']])
         if mo['rmin'] != mo['gmin'] or mo['rmax'] != mo['gmax']:
             chk.diff('model: reduction != global extremum (contradicts min_max_of_blocks)', case, mo)
         if not cplx:
             for ri, o in enumerate(vals):
-                if Fraction(mo['lmin'][ri]) != Fraction(o['lmin']) or Fraction(mo['lmax'][ri]) != Fraction(o['lmax']):
+                if fr(mo['lmin'][ri]) != fr(o['lmin']) or fr(mo['lmax'][ri]) != fr(o['lmax']):
                     chk.diff('local getMin()/getMax()', dict(case, rank=ri), [mo['lmin'][ri], mo['lmax'][ri]], [o['lmin'], o['lmax']])
             gl = [min(o['lmin'] for o in vals), max(o['lmax'] for o in vals)]
             if gl != [float(np.min(G)), float(np.max(G))]:
@@ -405,6 +406,13 @@ def minmax_cases(chk, drv):
 
 def json_key(x):
     return str(x)
+
+
+def fr(x):
+    """exact value of a float / rational string; None for +-inf, null (the model's neutral element) and None"""
+    if x is None or (isinstance(x, float) and math.isinf(x)):
+        return None
+    return Fraction(x)
 
 
 # ------------------------------------------------------------------------------------------------
